@@ -1292,8 +1292,9 @@ class NumberOrderedForm(Operator):
                 partial = partial._multiply_op(i, power)
             # Now multiply by the number part
             partial = partial._multiply_expr(coeff)
-            # Finally, multiply by annihilation operators
-            for i, power in enumerate(powers):
+            # Finally, multiply by annihilation operators. In a term these are ordered
+            # with the last operator leftmost, so we apply them in reverse order.
+            for i, power in reversed(tuple(enumerate(powers))):
                 if not power > 0:
                     continue
                 partial = partial._multiply_op(i, power)
